@@ -964,7 +964,7 @@ var stlUnicodeDiacritic = astikit.NewBiMap().
 // STL unicode mapping
 var stlUnicodeMapping = astikit.NewBiMap().
 	Set(byte('\x8a'), "\u000a"). // Line break
-	Set(byte('\xa8'), "\u00a4"). // ¤
+	Set(byte('\x24'), "\u00a4"). // ¤
 	Set(byte('\xa9'), "\u2018"). // ‘
 	Set(byte('\xaa'), "\u201C"). // “
 	Set(byte('\xab'), "\u00AB"). // «
@@ -992,7 +992,7 @@ var stlUnicodeMapping = astikit.NewBiMap().
 	Set(byte('\xdd'), "\u215C"). // ⅜
 	Set(byte('\xde'), "\u215D"). // ⅝
 	Set(byte('\xdf'), "\u215E"). // ⅞
-	Set(byte('\xe0'), "\u2126"). // Ohm Ω
+	Set(byte('\xe0'), "\u03A9"). // Ohm Ω (the Ohm sign U+2126 is normalized to the Greek capital letter omega)
 	Set(byte('\xe1'), "\u00C6"). // Æ
 	Set(byte('\xe2'), "\u0110"). // Đ
 	Set(byte('\xe3'), "\u00AA"). // ª
